@@ -36,7 +36,7 @@ def generate(rng, idx, tier, variant):
     spec = {'span': sp, 'subs': subs, 'own': {'endo': ['L0'], 'exo': ['LX'], 'check': own_check}, 'init': {'L0': [rng.choice(S.DYADS) for _ in range(n)], 'LX': [rng.choice(S.DYADS) for _ in range(n)]}}
     ops = []
     if rng.random() < 0.12 and n_sub >= 2:
-        ops.append({'op': 'construct-unequal-spans', 'which': rng.choice(IDS[1:n_sub]), 'how': rng.choice(['longer', 'shifted', 'other-labels'])})
+        ops.append({'op': 'construct-unequal-spans', 'which': rng.choice(IDS[1:n_sub]), 'how': rng.choice(['longer', 'shifted', 'other-labels', 'permuted', 'repeated'])})
     for _ in range(rng.choice([1, 1, 2, 3])):
         opts = S.gen_opts(rng, False)
         opts['errors'] = 'raise'
@@ -89,6 +89,15 @@ def generate(rng, idx, tier, variant):
         if rng.random() < 0.25:
             op['op'] = 'solve'
         ops.append(op)
+        r = rng.random()
+        if r < 0.15:
+            ops.append({'op': 'copy', 'route': rng.choice(['copy', 'copy.copy', 'deepcopy'])})
+        elif r < 0.27:
+            ops.append({'op': 'rebind', 'who': rng.choice(['_'] + ids), 'k': rng.randrange(4)})
+        elif r < 0.36 and ids:
+            ops.append({'op': 'grow_endogenous', 'who': rng.choice(['_'] + ids)})
+        elif r < 0.42 and ids:
+            ops.append({'op': 'replace_submodel', 'who': rng.choice(ids)})
     if rng.random() < 0.5:
         # linker-of-one twin against the bare model
         ms = S.gen_spec(rng, 'solver', tier)
@@ -145,7 +154,7 @@ def make_linker_class(fsic, own):
                     subs[act['dst']].__dict__['_' + act['dv']][t] = subs[act['src']].__dict__['_' + act['sv']][t] + act['c']
                     rec['linked'] = True
         # what the linker can see of the check variables at this instant
-        snap = {'_': [float(d['_' + nm][t]) for nm in check]}
+        snap = {'_': [float(d['_' + nm][t]) for nm in d['check']]}
         for sid, sm in d['submodels'].items():
             snap[str(sid)] = [float(sm.__dict__['_' + nm][t]) for nm in sm.__dict__['check']]
         rec['view'] = snap
@@ -219,10 +228,24 @@ def execute(schedule, ctx):
                 sp2['n'] += 1
             elif op['how'] == 'shifted':
                 sp2['origin'] = sp2.get('origin', 0) + 1
-            else:
+            elif op['how'] == 'other-labels':
                 sp2['type'] = 'list_str' if sp2['type'] != 'list_str' else 'list_int'
+            other_span = spans.make_span(sp2)
+            if op['how'] in ('permuted', 'repeated'):
+                # same length, same labels - in another order, or with one label repeated
+                items = spans.elements(spans.make_span(spec['span']))
+                if len(items) < 2:
+                    continue
+                if op['how'] == 'permuted':
+                    items[0], items[-1] = items[-1], items[0]
+                else:
+                    items[-1] = items[0]
+                other_span = list(items) if sp2['type'] != 'range' else list(items)
+                if spec['span']['type'] == 'range':
+                    # a list against a range is a different kind of span anyway; compare like with like
+                    continue
             ms = spec['subs'][op['which']]
-            other = probes.make_scripted(fsic, ms)(spans.make_span(sp2))
+            other = probes.make_scripted(fsic, ms)(other_span)
             probes.attach_ctl(other)
             parts = {}
             for sid in ids:
@@ -239,6 +262,46 @@ def execute(schedule, ctx):
             continue
         if kind == 'twin':
             do_twin(fsic, spec, op, ctx, chk)
+            continue
+        if kind == 'copy':
+            import copy as _copy
+
+            L = L.copy() if op['route'] == 'copy' else _copy.copy(L) if op['route'] == 'copy.copy' else _copy.deepcopy(L)
+            d = L.__dict__
+            subs = d['submodels']
+            ctx.probe('history:copy')
+            ctx.log(step, 'copy')
+            ctx.outcome('copy', 'ok')
+            continue
+        if kind == 'rebind':
+            # whole-series assignment from a list: the variable keeps its values but lives in a new array object
+            target = L if op['who'] == '_' else subs.get(op['who'])
+            if target is not None:
+                nms = [x for x in target.__dict__['index'] if x not in ('status', 'iterations')]
+                nm = nms[op['k'] % len(nms)]
+                setattr(target, nm, [float(v) for v in target.__dict__['_' + nm].tolist()])
+                ctx.probe('history:rebind-series')
+            ctx.log(step, 'rebind')
+            ctx.outcome('rebind', 'ok')
+            continue
+        if kind == 'grow_endogenous':
+            # the instance-level endogenous list is the user's to change at run time
+            target = L if op['who'] == '_' else subs.get(op['who'])
+            if target is not None:
+                lst = target.__dict__['endogenous']
+                extra = [x for x in target.__dict__['index'] if x not in lst and x not in ('status', 'iterations')]
+                if extra:
+                    lst.append(extra[0])
+                    ctx.probe('history:endogenous-list-grown')
+            ctx.log(step, 'grow_endogenous')
+            ctx.outcome('grow_endogenous', 'ok')
+            continue
+        if kind == 'replace_submodel':
+            if op['who'] in subs:
+                subs[op['who']] = subs[op['who']].copy()
+                ctx.probe('history:submodel-replaced')
+            ctx.log(step, 'replace_submodel')
+            ctx.outcome('replace_submodel', 'ok')
             continue
 
         opts = op['opts']
@@ -312,14 +375,18 @@ def execute(schedule, ctx):
             ctx.log(step, kind, 'offset-out', cls_out)
             continue
 
-        # ---- the start state after the offset copy (linker's own endogenous and every selected submodel's)
+        # ---- the start state after the offset copy (linker's own endogenous and every selected submodel's), by the
+        #      instances' own endogenous / check lists as they are now
+        own_endo, own_check = list(d['endogenous']), list(d['check'])
+        sub_endo = {sid: list(subs[sid].__dict__['endogenous']) for sid in ids}
+        sub_check = {sid: list(subs[sid].__dict__['check']) for sid in ids}
         start = {k_: {nm: a.copy() for nm, a in v_.items()} for k_, v_ in snap.items()}
         if off:
             ctx.probe('offset-used')
-            for nm in spec['own']['endo']:
+            for nm in own_endo:
                 start['_'][nm][tn] = snap['_'][nm][tn + off]
             for sid in selected:
-                for nm in spec['subs'][sid]['endo']:
+                for nm in sub_endo[sid]:
                     start[sid][nm][tn] = snap[sid][nm][tn + off]
 
         # ---- history: per iteration  eb, eval(s1..sk), ea  in the selected order
@@ -358,9 +425,9 @@ def execute(schedule, ctx):
             eb1 = [r for r in lrecs if r['hook'] == 'eb']
             if eb1:
                 seen = eb1[0]['endo_view']
-                want = {'_': [float(start['_'][nm][tn]) for nm in spec['own']['endo']]}
+                want = {'_': [float(start['_'][nm][tn]) for nm in own_endo]}
                 for sid in selected:
-                    want[sid] = [float(start[sid][nm][tn]) for nm in spec['subs'][sid]['endo']]
+                    want[sid] = [float(start[sid][nm][tn]) for nm in sub_endo[sid]]
                 # the eb hook itself may already have moved L0: compare against its pre-action view only for submodels
                 bad = [sid for sid in selected if not all(ref_solver._eq(a, b) for a, b in zip(seen.get(sid, []), want[sid]))]
                 act1 = (op['lplan']['eb'] or [{}])[0]
@@ -372,9 +439,9 @@ def execute(schedule, ctx):
 
         # ---- convergence as recorded: values of all check variables after each iteration
         def view0():
-            v0 = {'_': [float(start['_'][nm][tn]) for nm in spec['own']['check']]}
+            v0 = {'_': [float(start['_'][nm][tn]) for nm in own_check]}
             for sid in selected:
-                v0[sid] = [float(start[sid][nm][tn]) for nm in spec['subs'][sid]['check']]
+                v0[sid] = [float(start[sid][nm][tn]) for nm in sub_check[sid]]
             return v0
 
         eas = [r for r in lrecs if r['hook'] == 'ea']
